@@ -277,11 +277,27 @@ pub fn no_panic<T>(what: &str, f: impl FnOnce() -> T) -> Result<T, String> {
     catch_unwind(AssertUnwindSafe(f)).map_err(|e| format!("{what}: {}", panic_message(e)))
 }
 
+/// Failures caused by the environment (resource exhaustion) are never violations.
+const ENVIRONMENT_ERRORS: [&str; 5] = [
+    "Too many open files",
+    "os error 24",
+    "Cannot allocate memory",
+    "No space left on device",
+    "Resource temporarily unavailable",
+];
+
 fn run_case<T>(check: &(impl Fn(&T) -> CaseResult + ?Sized), value: &T) -> CaseResult {
-    match catch_unwind(AssertUnwindSafe(|| check(value))) {
+    let result = match catch_unwind(AssertUnwindSafe(|| check(value))) {
         Ok(r) => r,
         Err(e) => Err(panic_message(e)),
+    };
+    if let Err(msg) = &result {
+        if ENVIRONMENT_ERRORS.iter().any(|p| msg.contains(p)) {
+            println!("INCONCLUSIVE: environment error inside a case: {msg}");
+            std::process::exit(2);
+        }
     }
+    result
 }
 
 impl Ctx {
